@@ -145,14 +145,22 @@ def run_params(ctx):
                     yaml.dump({'decoy': {'speed': -1}}, fh)
             try:
                 got = load_parameters(rng.choice([name, pathlib.Path(name)]))
+                # the same unchanged file read again (twice in half of the cases): every read must give the expansion
+                again = [load_parameters(rng.choice([name, pathlib.Path(name)])) for _ in range(rng.choice([0, 1, 1, 2]))]
             except Exception as e:
                 ctx.fail('spec', 'params', case, f'load_parameters({name!r}) raised {type(e).__name__}: {e}', 'raised:params')
                 continue
+        ctx.count('params.reads', str(1 + len(again)))
         # the specification, independent of the model: section value if defined, else DEFAULT value
         dflt = next((dict(s[1]) for s in doc if s[0] == 'DEFAULT'), {})
         want = [{**{k: v for k, v in dflt.items() if k not in dict(s[1])}, **dict(s[1])} for s in doc if s[0] != 'DEFAULT']
         if got != want:
             ctx.fail('spec', 'params', {**case, 'got': got, 'want': want}, 'load_parameters does not return the DEFAULT-expanded sections of the file given', 'merge')
+            continue
+        bad = [g for g in again if g != want]
+        if bad:
+            ctx.fail('spec', 'params', {**case, 'got': bad[0], 'want': want, 'reads': 1 + len(again)},
+                     'a later read of the same unchanged parameter file does not return the DEFAULT-expanded sections', 'merge:reread')
             continue
         mm = [{k: v for k, v in sec} for sec in m]
         if mm != got:
@@ -218,14 +226,31 @@ def run_pgm(ctx):
     for (d_, f), m in zip(items, res):
         case = {'export_dir': d_, 'filename': f}
         ctx.seen({'stream': 'pgm', **case}, bool(d_))
+        moved = rng.random() < 0.3
+        ctx.count('pgm.cwd', 'changed-between-construction-and-close' if moved else 'same')
         with gcommon.Scratch() as d, core.quiet():
             try:
-                with PGMCompiler(filename=f, export_dir=d_) as G:
-                    G.dwell(1)
+                if moved:
+                    # the compiler is configured in one directory and the program is compiled and closed from another: a relative
+                    # export_dir names a directory relative to where the program is written from
+                    (d / 'setup').mkdir()
+                    (d / 'run').mkdir()
+                    os.chdir(d / 'setup')
+                    G = PGMCompiler(filename=f, export_dir=d_)
+                    os.chdir(d / 'run')
+                    with G:
+                        G.dwell(1)
+                    os.chdir(d)
+                else:
+                    with PGMCompiler(filename=f, export_dir=d_) as G:
+                        G.dwell(1)
             except Exception as e:
                 ctx.fail('spec', 'pgm', case, f'close() raised {type(e).__name__}: {e}', 'raised:close')
                 continue
             got = listing(d)
+            if moved:
+                got = [g[len('run/'):] if g.startswith('run/') else '<outside run/>' + g for g in got]
+        case['cwd_changed'] = moved
         if got != [m['pgm']]:
             ctx.fail('spec', 'pgm', {**case, 'written': got, 'expected': m['pgm']}, f'program written to {got}, expected {m["pgm"]}', 'pgm-target')
 
